@@ -83,7 +83,7 @@ func (g *gSpec) toTM(o tmOpts) string {
 				if mp, ok := o.MidRule[ri]; ok && mp == pos && pos > 0 {
 					parts = append(parts, "{ _ = 0 }")
 				}
-				if mk, ok := o.Markers[ri]; ok && mk == pos {
+				if mk, ok := o.Markers[ri]; (ok && mk == pos) || (!ok && r.Mark == pos+1) {
 					parts = append(parts, ".mark"+fmt.Sprint(ri%3))
 				}
 				if s < g.T {
@@ -91,6 +91,9 @@ func (g *gSpec) toTM(o tmOpts) string {
 				} else {
 					parts = append(parts, g.symName(s))
 				}
+			}
+			if mk, ok := o.Markers[ri]; (ok && mk == len(r.R)) || (!ok && r.Mark == len(r.R)+1) {
+				parts = append(parts, ".mark"+fmt.Sprint(ri%3)) // at the end / alone in an empty rule
 			}
 			if len(r.R) == 0 {
 				parts = append(parts, "%empty")
